@@ -224,6 +224,9 @@ func checkC03(P *Prog, r *Result) {
 	// with no issues reported a leaf holds the coercion of *its* input: a catch value replaces it only when that
 	// node itself failed, never because Exit / CanCatch were left set by a sibling or an earlier element (C05's rule)
 	shareRule(P, r, checkC05, "C05/confinement", nil, "C03/catch-value-only-on-own-failure", 10)
+	// "absent optional inputs leave their destination untouched": default > required > optional, and the catch value is
+	// for failures only - an absent optional node with a Catch is skipped, not caught (C04's decision rule)
+	shareRule(P, r, checkC04, "C04/decision-shape", nil, "C03/absent-optional-untouched", 5)
 }
 
 // closureEffect: does option closure cl act on its argument?
